@@ -56,6 +56,10 @@ type pkgInfo struct {
 	escaped    map[string]bool       // fields whose address is taken
 	strict     map[string]bool       // strict cell classes (fields.go)
 	dirty      map[string]bool       // interface types whose heap cells may hold typed nils
+	typeIDs    map[string]int        // pointer types (by name) -> number
+	typeNames  []string
+	tn         map[int]bool // pointer types of which a typed nil may exist
+	errHalts   bool         // C03 reading: recording a parse error ends the run
 }
 
 func (pk *pkgInfo) posString(p token.Pos) string {
@@ -389,4 +393,19 @@ func structName(t types.Type) string {
 		}
 	}
 	return ""
+}
+
+// typeID numbers the pointer types that take part in conversions and type tests
+func (pk *pkgInfo) typeID(t types.Type) int {
+	if pk.typeIDs == nil {
+		pk.typeIDs = map[string]int{}
+	}
+	k := types.TypeString(t, func(p *types.Package) string { return p.Name() })
+	if id, ok := pk.typeIDs[k]; ok {
+		return id
+	}
+	id := len(pk.typeNames)
+	pk.typeIDs[k] = id
+	pk.typeNames = append(pk.typeNames, k)
+	return id
 }
